@@ -75,11 +75,15 @@ def vh(args, timeout=1800):
         return {"raw": out[-500:]}
 
 
+def hash_str(s):
+    return int(hashlib.sha256(s.encode()).hexdigest()[:12], 16)
+
+
 def tlc_workers():
     return int(os.environ.get("VERIF_TLC_WORKERS", "8"))
 
 
-def tlc_mc(module, cfg, name, timeout=1200, workers=None, env=None, edges_out=None):
+def tlc_mc(module, cfg, name, timeout=1200, workers=None, env=None, edges_out=None, sample=None, seed=1):
     """Exhaustive model check.  Returns dict(states, distinct, depth, edges).  Any invariant /
     property violation of the MODEL is a specification error (tool error), never a VIOLATION of
     the code."""
@@ -109,7 +113,8 @@ def tlc_mc(module, cfg, name, timeout=1200, workers=None, env=None, edges_out=No
                 if h not in seen:
                     seen.add(h)
                     n_edges += 1
-                    if ef:
+                    # optional deterministic sampling of the emitted histories (quick tier)
+                    if ef and (sample is None or (hash_str(h) + seed) % sample == 0):
                         ef.write(h + "\n")
                 continue
             m = re.match(r"(\d+) states generated, (\d+) distinct states found", line)
@@ -181,8 +186,8 @@ class Report:
     def violation(self, key, replay):
         """key: stable witness key (component:entry:symptom...).  replay: JSON-able object."""
         for k in self.known:
-            if key == k["key"] or (k.get("key_prefix") and key.startswith(k["key_prefix"])):
-                self.known_hit[k["key"] if "key" in k else k["key_prefix"]] = k.get("what", "")
+            if (k.get("key") and key == k["key"]) or (k.get("key_prefix") and key.startswith(k["key_prefix"])):
+                self.known_hit[k.get("key") or k["key_prefix"]] = k.get("what", "")
                 return
         if key in self.new:
             return
